@@ -120,12 +120,13 @@ def case_rng(seed, prop, idx):
 
 
 def run_case(item):
-    prop, seed, idx, tier, avoid = item
+    prop, seed, idx, tier, avoid = item[:5]
+    own = set(item[5]) if len(item) > 5 else set(avoid)
     o = oracle(prop)
     rng = case_rng(seed, prop, idx)
     avoid = set(avoid)
     if avoid and rng.random() < 0.12:
-        avoid = set()          # a minority of runs confirms the known findings are still there
+        avoid = avoid - own    # a minority of runs confirms this property's own known findings are still there
     from . import gen as _gen
     _gen.AVOID = set(avoid)
     case = o.gen_case(rng, tier, avoid)
@@ -243,7 +244,8 @@ def main_check(prop, tier, seed, cases=None, wall=None, workers=None, out=sys.st
     # 2. seeded exploration
     n = cfg['cases']
     deadline = t0 + cfg['wall']
-    items = [(prop, seed, i, tier, avoid) for i in range(n)]
+    own = sorted(avoid_tags(mine))
+    items = [(prop, seed, i, tier, avoid, own) for i in range(n)]
     agg = Aggregate()
     results = runner.run_cases('sim.engine', 'run_case', items, workers=workers, deadline=deadline)
     retry = []
@@ -280,6 +282,7 @@ def main_check(prop, tier, seed, cases=None, wall=None, workers=None, out=sys.st
             key = (v['rule'], json.dumps(v.get('fp'), sort_keys=True, default=jdefault))
             groups.setdefault(key, []).append((res, v))
     reported = 0
+    seen_paths = set()
     for key in sorted(groups, key=lambda k: (k[0], k[1])):
         if reported >= int(os.environ.get('VERIF_MAX_REPORTS', '4')):
             break
@@ -307,6 +310,9 @@ def main_check(prop, tier, seed, cases=None, wall=None, workers=None, out=sys.st
         path = write_replay(prop, small, vv, {'original_ops': shrink.count_ops(case['scenario'].get('history', [])),
                                               'minimised_ops': shrink.count_ops(small['scenario'].get('history', [])),
                                               'occurrences': len(groups[key])})
+        if path in seen_paths:
+            continue
+        seen_paths.add(path)
         # fresh-process reproduction
         ok = reproduce(path, prop)
         if ok:
